@@ -14,6 +14,7 @@ R18.4 accumulation: per-APID rows in stream order, files in the order given, one
 """
 from __future__ import annotations
 
+import ast
 import struct
 
 from ..core import Ctx, PropSpec, Unsupported
@@ -21,6 +22,7 @@ from ..extract import where
 from ..harness import Harness
 from ..interp import DictObj, Obj, Raised
 from ..models import VALUE_CLASSES, new_raw, source_externals
+from ..program import AnchorMissing
 from . import xmlcommon as X
 
 XR = "xarr.py"
@@ -168,7 +170,16 @@ KINDS = {
 
 def dtype_table(ctx: Ctx):
     prog = ctx.prog
-    fi = prog.func(f"{XR}::_min_dtype_for_encoding")
+    fi = prog.func_opt(f"{XR}::_min_dtype_for_encoding")
+    if fi is None:      # renamed: the one-argument module function of xarr.py that distinguishes Integer/Float encodings
+        for f2 in prog.functions.values():
+            if f2.relpath == XR and f2.cls is None and f2.parent is None and len(f2.params) == 1:
+                names = {n.attr if isinstance(n, ast.Attribute) else getattr(n, "id", None) for n in ast.walk(f2.node)}
+                if {"IntegerDataEncoding", "FloatDataEncoding"} <= names:
+                    fi = f2
+        if fi is None:
+            raise AnchorMissing("no dtype selector (function of one encoding) found in xarr.py")
+    FN = fi.name
     h = Harness(prog, Rec().ext({}))
     spellings = ["unsigned", "signed", "twosComplement", "twosCompliment", "onesComplement", "signMagnitude"]
     for enc in spellings:
@@ -176,7 +187,7 @@ def dtype_table(ctx: Ctx):
         bad = None
         try:
             for bits in range(1, 65):
-                k, dt = h.outcome(f"_min_dtype_for_encoding(encodings.IntegerDataEncoding(bits, enc))", XR, bits=bits, enc=enc)
+                k, dt = h.outcome(f"{FN}(encodings.IntegerDataEncoding(bits, enc))", XR, bits=bits, enc=enc)
                 if k != "ok":
                     bad = f"{bits}-bit {enc} integer: dtype selection raises {dt}"
                     break
@@ -196,7 +207,7 @@ def dtype_table(ctx: Ctx):
     try:
         bad = None
         for bits, v in ((16, 0.333251953125), (32, 3.4028234663852886e+38), (64, 0.1), (64, 1e300)):
-            k, dt = h.outcome("_min_dtype_for_encoding(encodings.FloatDataEncoding(bits))", XR, bits=bits)
+            k, dt = h.outcome(f"{FN}(encodings.FloatDataEncoding(bits))", XR, bits=bits)
             why = dtype_ok(dt, v) if k == "ok" else f"raises {dt}"
             if why:
                 bad = f"{bits}-bit float gets dtype {dt}: {why}"
